@@ -1342,6 +1342,14 @@ fn exec_op(op: &Value, ctx: &mut Ctx) {
             let kind = op["kind"].as_str().unwrap();
             let aid = op.get("aid").and_then(|v| v.as_i64()).unwrap_or(0);
             let ret: Ret<i64> = match kind {
+                "plain" if rid % 2 == 1 => ret_do!(move |m: Option<i64>| {
+                    ev(format!(
+                        r#"{{"e":"retcb","rid":{},"has":{},"val":{}}}"#,
+                        rid,
+                        m.is_some(),
+                        m.unwrap_or(0)
+                    ));
+                }),
                 "plain" => Ret::new(move |m: Option<i64>| {
                     ev(format!(
                         r#"{{"e":"retcb","rid":{},"has":{},"val":{}}}"#,
@@ -1350,7 +1358,24 @@ fn exec_op(op: &Value, ctx: &mut Ctx) {
                         m.unwrap_or(0)
                     ));
                 }),
+                // ret_some_do!: the closure only hears about Some
+                "somedo" => ret_some_do!(move |v: i64| {
+                    ev(format!(r#"{{"e":"retcb","rid":{},"has":true,"val":{}}}"#, rid, v));
+                }),
                 "to" | "someto" => {
+                    // inside the target's own method: the `[cx], |this, cx, m| ...` forms
+                    if let Ctx::M(n, cx) = ctx {
+                        if n.aid == aid && rid % 2 == 0 {
+                            let r: Ret<i64> = if kind == "to" {
+                                ret_to!([cx], |this, cx, m: Option<i64>| this.retm(cx, rid, m))
+                            } else {
+                                ret_some_to!([cx], |this, cx, m: i64| this.retsome(cx, rid, m))
+                            };
+                            ev(format!(r#"{{"e":"mkret","rid":{},"kind":"{}","aid":{}}}"#, rid, kind, aid));
+                            w(|w| w.rets.insert(rid, RetH { rid, ret: Some(r) }));
+                            return;
+                        }
+                    }
                     let a = match get_actor(aid) {
                         Some(a) => a,
                         None => {
@@ -1399,6 +1424,15 @@ fn exec_op(op: &Value, ctx: &mut Ctx) {
             } else {
                 panic!("harness: keepret outside method");
             }
+        }
+        "mkfwd" if op.get("kind").and_then(|v| v.as_str()) == Some("do") => {
+            // fwd_do!: a Fwd that calls a closure on the spot
+            let fid = get_i(op, "fid");
+            let f: Fwd<i64> = fwd_do!(move |v: i64| {
+                ev(format!(r#"{{"e":"fcb","fid":{},"val":{}}}"#, fid, v));
+            });
+            ev(format!(r#"{{"e":"mkfwd","fid":{},"aid":0}}"#, fid));
+            w(|w| w.fwds.insert(fid, FwdH::One(f)));
         }
         "mkfwd" => {
             let fid = get_i(op, "fid");
